@@ -186,10 +186,10 @@ theorem execRdv_self (e : Ev) (s : Store) : execRdv e e s = exec e s := by
     and running `R` serially from the current slots gives the serial result -/
 def Inv (who : Nat → Nat) (E : List Ev) (init : Store) (k : Nat) (st : St) : Prop :=
   ∃ R : List Ev, (∀ r, st.prog r = proj who r R) ∧ execAll R st.store = execAll E init ∧
-    R.length + k = E.length
+    R.length + k = E.length ∧ (∀ e ∈ R, e ∈ E)
 
 theorem inv_init (who E init) : Inv who E init 0 (initSt who E init) :=
-  ⟨E, fun _ => rfl, rfl, rfl⟩
+  ⟨E, fun _ => rfl, rfl, rfl, fun _ h => h⟩
 
 /-- what a matched send/recv pair at two heads looks like under the invariant: it is one and the same event,
     and it is the first remaining event for both ranks -/
@@ -220,13 +220,13 @@ theorem rdv_same_event {who a b e e' ra rb} {R : List Ev} {prog : Nat → List A
 
 theorem inv_step {who E init k st st'} (hinv : Inv who E init k st) (hs : Step st st') :
     Inv who E init (k + 1) st' := by
-  obtain ⟨R, hR, hex, hlen⟩ := hinv
+  obtain ⟨R, hR, hex, hlen, hsub⟩ := hinv
   cases hs with
   | loc r e rest hp =>
     rw [hR r] at hp
     obtain ⟨R1, e0, R2, h1, h2, h3, h4⟩ := proj_split hp
     obtain ⟨rfl, hr, hloc⟩ := act_eq_loc h3
-    refine ⟨R1 ++ R2, ?_, ?_, ?_⟩
+    refine ⟨R1 ++ R2, ?_, ?_, ?_, ?_⟩
     · intro x
       simp only [setProg]
       by_cases hx : x = r
@@ -245,9 +245,14 @@ theorem inv_step {who E init k st st'} (hinv : Inv who E init k st) (hs : Step s
       · rw [← hr]; exact h2 f hf
       · rw [← hloc, ← hr]; exact h2 f hf
     · rw [h1] at hlen; simp at hlen ⊢; omega
+    · intro x hx
+      apply hsub; rw [h1]
+      rcases List.mem_append.mp hx with h | h
+      · exact List.mem_append_left _ h
+      · exact List.mem_append_right _ (List.mem_cons_of_mem _ h)
   | rdv a b e e' ra rb hab ha hb =>
     obtain ⟨rfl, ha1, hb1, _, R1, R2, h1, h2, h2', h4, h4'⟩ := rdv_same_event hR ha hb
-    refine ⟨R1 ++ R2, ?_, ?_, ?_⟩
+    refine ⟨R1 ++ R2, ?_, ?_, ?_, ?_⟩
     · intro x
       simp only [setProg]
       by_cases hxb : x = b
@@ -269,6 +274,11 @@ theorem inv_step {who E init k st st'} (hinv : Inv who E init k st) (hs : Step s
       · rw [← ha1]; exact h2 f hf
       · rw [← hb1]; exact h2' f hf
     · rw [h1] at hlen; simp at hlen ⊢; omega
+    · intro x hx
+      apply hsub; rw [h1]
+      rcases List.mem_append.mp hx with h | h
+      · exact List.mem_append_left _ h
+      · exact List.mem_append_right _ (List.mem_cons_of_mem _ h)
 
 theorem inv_reach {who E init k st} (h : Reach who E init k st) : Inv who E init k st := by
   induction h with
@@ -278,7 +288,7 @@ theorem inv_reach {who E init k st} (h : Reach who E init k st) : Inv who E init
 /-- under the invariant, a state in which some rank still has work can move -/
 theorem inv_progress {who E init k st} (hinv : Inv who E init k st) (hne : ∃ r, st.prog r ≠ []) :
     ∃ st', Step st st' := by
-  obtain ⟨R, hR, _, _⟩ := hinv
+  obtain ⟨R, hR, _, _, _⟩ := hinv
   cases R with
   | nil =>
     obtain ⟨r, hr⟩ := hne
@@ -297,7 +307,7 @@ theorem inv_progress {who E init k st} (hinv : Inv who E init k st) (hne : ∃ r
 /-- under the invariant, if all programs are empty, nothing remains and the slots hold the serial result -/
 theorem inv_final {who E init k st} (hinv : Inv who E init k st) (hfin : ∀ r, st.prog r = []) :
     st.store = execAll E init ∧ k = E.length := by
-  obtain ⟨R, hR, hex, hlen⟩ := hinv
+  obtain ⟨R, hR, hex, hlen, _⟩ := hinv
   cases R with
   | nil => exact ⟨hex, by simpa using hlen⟩
   | cons e R =>
